@@ -108,6 +108,41 @@ func genC04(seed uint64, tier string) *plan.Plan {
 	}
 	p.Params["probe_after_each"] = 1
 	p.Phases = []plan.Phase{ph}
+	// Bursts: several clients work on the SAME key concurrently (atomic operations queue on the
+	// owner's key lock while plain writes overtake them); the copies are compared once everything
+	// has been acknowledged. One census per burst, 1-3 bursts.
+	for b, nb := 0, r.Range(0, 3); b < nb; b++ {
+		key := fmt.Sprintf("b%d", b)
+		burst := plan.Phase{Name: "burst", Yields: true}
+		burst.Clients = append(burst.Clients, plan.Script{ID: 40, Kind: "ctl", Ops: []plan.Op{{K: "put", Key: key, Val: fmt.Sprint(r.Range(0, 50)), Tag: "cc"}}})
+		nc := r.Range(2, 6)
+		ops := plan.Phase{Name: "burst", Yields: true}
+		for c := 0; c < nc; c++ {
+			sc := entry(r, 50+c, n)
+			for i, no := 0, r.Range(1, 5); i < no; i++ {
+				op := plan.Op{Key: key, D: int64(Pick(r, 0, 0, 50, 600))}
+				switch x := r.Intn(100); {
+				case x < 40:
+					op.K, op.Delta = Pick(r, "incr", "decr"), int64(r.Range(1, 9))
+				case x < 70:
+					op.K, op.Val = "put", fmt.Sprint(r.Range(100, 999))
+					if r.Bool(250) {
+						op.PX = int64(r.Range(500, 5000))
+					}
+				case x < 85:
+					op.K, op.Val = "getput", fmt.Sprint(r.Range(1000, 9999))
+				case x < 93:
+					op.K, op.Dur = "expire", int64(r.Range(500, 5000))
+				default:
+					op.K = "del"
+				}
+				sc.Ops = append(sc.Ops, op)
+			}
+			ops.Clients = append(ops.Clients, sc)
+		}
+		census := plan.Phase{Name: "burst-census", Clients: []plan.Script{{ID: 41, Kind: "ctl", Ops: []plan.Op{{K: "ctl.copies", Key: key, Tag: "burst"}}}}}
+		p.Phases = append(p.Phases, burst, ops, census)
+	}
 	return p
 }
 
@@ -138,6 +173,9 @@ func oracleC04(p *plan.Plan, his []plan.Rec, res *plan.Result) {
 				}
 			}
 			continue
+		}
+		if r.Op.Tag == "burst" {
+			r.Info = "burst (concurrent operations on the key)"
 		}
 		var prim *plan.Copy
 		for j := range r.Copies {
